@@ -157,6 +157,11 @@ Definition unicode_names : ty :=
   TStruct [(u8 [195; 137; 108; 97; 110], t_string); (u8 [208; 152; 208; 188; 209; 143], t_int32);
            (u8 [195; 150; 108], TSlice leaf); ("Z", TPtr (TNamed "Uni" (TStruct [(u8 [208; 163; 208; 187], t_string); ("A", t_int32)])))].
 
+(* field names that are prefixes of one another or differ only in the case of a letter: a segment must match a name exactly *)
+Definition similar_names : ty :=
+  TStruct [("A", t_int32); ("Ab", t_string); ("AB", t_bytes); ("Abc", TPtr leaf); ("ABC", TMap t_string t_int32);
+           ("ABc", TSlice t_string); ("Name", t_string); ("NAME", t_int32); ("Names", TSlice leaf)].
+
 (* a struct with one field per scalar kind: K0 .. K14 *)
 Definition kinds_struct (f : skind -> ty) (ks : list skind) : ty :=
   TStruct ((fix go (i : nat) (l : list skind) : list (string * ty) :=
@@ -201,7 +206,7 @@ Definition multi : list ty :=
    kinds_struct (fun k => TSlice (TScalar k)) all_skinds;
    kinds_struct (fun k => TMap t_string (TScalar k)) all_skinds;
    kinds_struct (fun k => TMap (TScalar k) t_string) (filter (fun k => match k with SByte => false | _ => true end) all_skinds);
-   shared_names; value_chain; unicode_names].
+   shared_names; value_chain; unicode_names; similar_names].
 
 Definition rep_shapes : list ty :=
   dedup_ty (shapes1 rep_skinds ++ shapes2 [SString; SInt KInt32] [SInt KInt32; SString]).
